@@ -408,3 +408,98 @@ Print Assumptions C10_tables_from_tree_nonvacuous.
 Print Assumptions C10_tables_from_tree_shape_needed.
 Print Assumptions C10_old_type_param_leak_refuted.
 Print Assumptions C10_fixed_type_param_leak.
+
+(* ---- from the tables to the ANSWERS, at tree level, one document (Model/DefTree.v) ----
+   DefTree.definition t stem p: get_definition on the real tree t of a document stored alone as
+   <stem>.god, at position p (search_encasing_node, get_nearest_symbol_table, handle_generic),
+   over the tables of Model/Annot.v; outcome Outside where another document would be needed.
+   Tied to the code by the differential stage `deftree` of checks/c10.py (every identifier position). *)
+From GoldV Require Import Lexer DefTree DefTreeProofs DefTreeWitness.
+
+(* where get_definition takes the plain branch (the encasing node is not under a dot, not the name
+   of a method, not a member declaration): the look-up on the chain of the encasing method *)
+Theorem C10_tree_plain_case :
+  forall t stem p idx enc pi q up ch,
+    flat_methods t = true -> chain_for t (descend p t) = Some ch ->
+    path_up p t = (idx, enc) :: (pi, q) :: up ->
+    is_dot q = false -> (is_method_node q && Nat.eqb idx 0) = false -> is_member_decl enc = false ->
+    definition t stem p =
+    match get_id enc p with
+    | None => Ans []
+    | Some id =>
+        match lookup ch id with
+        | Some (T, a) => if indexed1 stem (cls_str T) then Ans [(a_sel a, a_range a)] else Ans []
+        | None => if foreign t then Outside else Ans []
+        end
+    end.
+Proof. exact definition_plain_case. Qed.
+
+(* the property itself for this fragment, ANY tree: a plain identifier resolves in the nearest table
+   of its chain (the method's table, then the class's) that declares the name ignoring case, to the
+   most recent declaration there; that symbol is the symbol of a visited declaration node and the
+   link's selection range is the range of that node's name token; unresolved -> no table of the
+   chain declares the name *)
+Theorem C10_tree_plain :
+  forall t ch id, (forall U, In U ch -> In U (tables_of false t)) ->
+    match lookup ch id with
+    | Some (T, a) =>
+        (exists pre post, ch = pre ++ T :: post /\ Forall (fun U => Forall (fun b => named id b = false) (t_syms U)) pre) /\
+        named id a = true /\
+        (exists A1 A2, t_syms T = A1 ++ a :: A2 /\ Forall (fun b => named id b = false) A2) /\
+        (exists p, In p (visit_seq false t) /\
+           In a (decl_syms p) /\ a_sel a = name_range (snd p) /\ a_range a = nrange (snd p) /\
+           (a_name a = nident (snd p) \/ (a_name a = s_self /\ dkind_at p = Some DClass)))
+    | None => Forall (fun U => Forall (fun b => named id b = false) (t_syms U)) ch
+    end.
+Proof. exact lookup_direct. Qed.
+
+Theorem C10_tree_chain_is_of_the_document :
+  forall t steps ch, chain_for t steps = Some ch -> forall U, In U ch -> In U (tables_of false t).
+Proof. exact chain_for_tables. Qed.
+
+(* refinement: in the k-th method of a regular document the tree-level look-up and the look-up of
+   the abstract model on entity_of_tree t select the SAME declaration -- same table, same position
+   in it (same_decl), same name and symbol type -- or both nothing *)
+Theorem C10_tree_plain_refines :
+  forall t k mt id, regular t ->
+    nth_error (method_tables_of false t) k = Some mt ->
+    let e := entity_of_tree t in
+    exists me, nth_error (e_methods e) k = Some me /\
+      match search_wparent (abs_chain e me) id with
+      | Some (c, y) =>
+          exists T a, lookup [mt; root_table_of false t] id = Some (T, a) /\ cls_str T = c /\ aview a = sview y /\
+            ((T = mt /\ same_decl mt (method_table e me) a y) \/
+             (T = root_table_of false t /\ find_in mt id = None /\ same_decl T (root_table e) a y))
+      | None => lookup [mt; root_table_of false t] id = None
+      end.
+Proof. exact deftree_plain_refines. Qed.
+
+(* abs_chain IS the chain of Scoping's entry points (resolve_plain = search_w_class on scope_chain)
+   for a parent-less entity whose method names are distinct *)
+Theorem C10_tree_abs_chain_is_scope_chain :
+  forall e me, e_parent e = None -> find_method e (me_name me) = Some me ->
+    scope_chain [e] (e_name e) (Some (me_name me)) = abs_chain e me.
+Proof. exact scope_chain_single. Qed.
+
+(* non-vacuity, on the real parser's tree of
+   class aFoo / const cA = 1 / fa : int4 / proc Run(p : int4, Fa : int4) / var l : int4 /
+   l = p + fa + cA / self.fa = l / zz = 1 / endproc                        (stored as aFoo.god) *)
+Example C10_tree_nonvacuous :
+  regular deftree_ex /\ foreign deftree_ex = false /\
+  definition deftree_ex dx_aFoo (mkPos 5 9) = Ans [(rg 3 19 3 21, rg 3 19 3 28)] /\     (* fa -> the parameter Fa *)
+  definition deftree_ex dx_aFoo (mkPos 5 14) = Ans [(rg 1 6 1 8, rg 1 0 1 12)] /\       (* cA -> the constant *)
+  definition deftree_ex dx_aFoo (mkPos 6 6) = Ans [(rg 2 0 2 2, rg 2 0 2 9)] /\         (* self.fa -> the field *)
+  definition deftree_ex dx_aFoo (mkPos 7 1) = Ans [] /\                                 (* zz -> nothing *)
+  definition deftree_ex dx_aFoo (mkPos 3 5) = Ans [(rg 3 5 3 8, rg 3 0 8 7)] /\         (* declared name of Run *)
+  resolve_plain [entity_of_tree deftree_ex] dx_aFoo (Some [82;117;110]) [102;97] = Some (dx_aFoo, 5).
+Proof.
+  destruct deftree_ex_facts as (H1 & H2 & _ & _ & H5 & H6 & _ & H8 & H9 & H10 & _ & _ & _ & H14 & _).
+  split; [apply regularb_ok; exact H1|]. repeat split; assumption.
+Qed.
+
+Print Assumptions C10_tree_plain_case.
+Print Assumptions C10_tree_plain.
+Print Assumptions C10_tree_chain_is_of_the_document.
+Print Assumptions C10_tree_plain_refines.
+Print Assumptions C10_tree_abs_chain_is_scope_chain.
+Print Assumptions C10_tree_nonvacuous.
